@@ -1,9 +1,9 @@
 // C01 - the option parser never silently ignores a command-line argument.
 // Engine B: every declaration of a 540-element grid x every argument vector up to a length bound over
 // the relational token alphabet of that declaration; the real parser against the reference model.
-#include "../ref/refparse.hpp"
+#include "parser_check.hpp"
 
-using namespace ref;
+using namespace pc;
 
 static std::vector<Decl> declarations()
 {
@@ -97,100 +97,26 @@ static bool judged(const std::string& clause)
            clause == "positionals";
 }
 
-static std::string failing_clause(const Decl& D, const std::vector<std::string>& av, std::string* detail)
-{
-    auto r = refparse(D, av, {});
-    auto i = impl(D, av, {});
-    for (auto& d : compare(r, i))
-        if (judged(d.clause))
-        {
-            if (detail)
-                *detail = d.detail;
-            return d.clause;
-        }
-    return "";
-}
-
-static void run_case(const Decl& D, const std::vector<std::string>& av, mc::Report& rep, long idx)
-{
-    Trace tr{ &rep.states, &rep.transitions };
-    auto r = refparse(D, av, {}, &tr);
-    auto i = impl(D, av, {});
-    rep.outcomes.insert(mc::hash(r.str()));
-    auto cs = class_seq(D, av);
-    if (cs.find('[') != std::string::npos || cs.find("SEP") != std::string::npos)
-        rep.nontrivial.insert(mc::hash(D.str() + "|" + cs));
-    rep.count(i.ok ? "impl_accepts" : "impl_rejects");
-    for (auto& d : compare(r, i))
-    {
-        if (!judged(d.clause))
-        {
-            rep.count("not_judged_here:" + d.clause);
-            continue;
-        }
-        auto clause = d.clause;
-        std::vector<std::string> min = av;
-        if (rep.want_witness())
-            min = minimise(av, [&](const std::vector<std::string>& c) {
-                return failing_clause(D, c, nullptr) == clause;
-            });
-        std::string detail;
-        failing_clause(D, min, &detail);
-        rep.violation(clause, "C01:" + clause + ":" + class_seq(D, min), witness_json(D, min, {}),
-                      detail, idx);
-    }
-    if (rep.samples.size() < 3 && i.ok && av.size() >= 2 && idx % 977 == 0)
-        rep.sample(mc::J().s("decl", D.str()).l("argv", av).s("result", i.str()).str());
-}
-
 int main(int argc, char** argv)
 {
     auto a = mc::parse_args(argc, argv);
-    auto decls = declarations();
+    ParserCheck chk{ "C01", judged };
     if (!a.replay.empty())
-    {
-        return replay_case(a.replay, "C01", [](const Decl& D, const std::vector<std::string>& av, const Env& e) {
-            std::vector<Diff> out;
-            for (auto& d : compare(refparse(D, av, e), impl(D, av, e)))
-                if (judged(d.clause))
-                    out.push_back(d);
-            return out;
-        });
-    }
+        return chk.replay(a.replay);
+    auto decls = declarations();
     int n = a.thorough() ? 3 : 2;
     if (a.asan())
         n -= 1;
-    if (a.thorough() && a.asan())
-        n = 2;
-    mc::Sharded sh;
-    sh.id = "C01";
-    sh.nworkers = a.jobs;
-    sh.tmpdir = a.tmpdir;
-    sh.deadline_s = a.deadline_s;
+    auto sh = sharded(a, "C01");
     sh.walk = [&](mc::Ctx& ctx) {
         for (auto& D : decls)
         {
             auto alpha = alphabet(D);
-            std::vector<std::string> av;
-            // all vectors of length 0..n, shortest first per declaration
-            for (int len = 0; len <= n && !ctx.stop(); len++)
-            {
-                std::vector<size_t> ix(len, 0);
-                for (;;)
-                {
-                    av.clear();
-                    for (auto k : ix)
-                        av.push_back(alpha[k]);
-                    long idx = ctx.next;
-                    ctx.each([&] { return mc::Desc{ witness_json(D, av, {}), class_seq(D, av) }; },
-                             [&](mc::Report& rep) { run_case(D, av, rep, idx); });
-                    int p = len - 1;
-                    while (p >= 0 && ++ix[p] == alpha.size())
-                        ix[p--] = 0;
-                    if (p < 0)
-                        break;
-                }
-            }
+            for_all_vectors(alpha, n, ctx, [&](const std::vector<std::string>& av) {
+                long idx = ctx.next;
+                ctx.each([&] { return chk.describe(D, av, {}); },
+                         [&](mc::Report& rep) { chk.run_case(D, av, {}, rep, idx); });
+            });
         }
     };
     auto rep = sh.run();
